@@ -53,6 +53,7 @@ def gen(rng, idx, tier):
     if idx % 4 == 3:
         return {"kind": "raw", "acc_max": rng.choice(MAXES), "n": rng.choice([0, 1, 10, 57, 300]),
                 "group": rng.choice(["one_byte", "all_in_one", "random", "cmd_and_data_together"]), "gseed": rng.randrange(1000),
+                "empty_last": rng.randrange(4) == 0,
                 "chunked_recv": rng.randrange(3) == 0, "sched": {"switch_pct": 20}, "net": C.gen_net(rng)}
     smax = rng.choice(MAXES)
     rmax = rng.choice(MAXES)
@@ -137,6 +138,8 @@ def execute(sc, ctx):
                         i += n
                 else:
                     parts = [blob]
+                if sc.get("empty_last") and not is_cmd and blob:
+                    parts = parts + [b""]     # the data set ends with an empty fragment marked "last" (legal)
                 return [(3, is_cmd, j == len(parts) - 1, x) for j, x in enumerate(parts)]
             pdvs = cut(cmd, True) + cut(ds, False)
             if sc["group"] in ("all_in_one", "cmd_and_data_together"):
@@ -293,7 +296,7 @@ def nontrivial(sc, r):
     c2s, _ = C.conn_pdus(r, 0, "c2s")
     npd = len([p for p in c2s if p["type"] == 4])
     if sc["kind"] == "raw":
-        return ("raw", sc["acc_max"], sc["n"], sc["group"], sc["gseed"], sc["chunked_recv"]) if npd > 1 or sc["group"] != "all_in_one" else None
+        return ("raw", sc["acc_max"], sc["n"], sc["group"], sc["gseed"], sc["chunked_recv"], sc.get("empty_last")) if npd > 1 or sc["group"] != "all_in_one" else None
     if npd > 2 or sc["scu_max"] != sc["scp_max"]:
         return ("real", sc["scu_max"], sc["scp_max"], sc["pad"], sc.get("exact_len"), sc["chunked_send"], sc["chunked_recv"], sc["find"])
     return None
